@@ -226,6 +226,54 @@ def scenarios(thorough):
     return s
 
 
+def fault_check(res):
+    """A format-constraint evaluator fails ONCE (TimeoutError / ConnectionError / ValueError) for one element of a segment. Whether the failure surfaces or
+    is handled is not judged; every result that IS reported for an element must be the one its own input gives (format verdict and message)."""
+    import ahb
+    from ahbicht.content_evaluation.fc_evaluators import text_to_be_evaluated_by_format_constraint as text_var
+    from ahbicht.models.validation_values import RequirementValidationValue
+    from ahbicht.validation.validation import validate_deep_anwendungshandbuch, validate_segment
+    from maus.models.anwendungshandbuch import AhbMetaInformation, DeepAnwendungshandbuch
+    texts = {"e1": "first-1-input", "e2": "second-input-x", "e3": "third-1-input", "e4": "fourth-input-y"}
+    for exc in (TimeoutError, ConnectionError, ValueError):
+        for victim in ("e1", "e2", "e4"):
+            for entry in ("segment", "deep"):
+                state = {"raised": False}
+
+                def rule(k, text, victim=victim, state=state, exc=exc):
+                    if text == texts[victim] and not state["raised"]:
+                        state["raised"] = True
+                        raise exc("evaluator backend failed once")
+                    return fc_rule(k, text)
+                ev = GT.make_evaluators(rc_values={1: "F", 2: "F", 3: "F", 4: "F"}, fc_rule=rule)
+                seg = S_("s1", "Muss", [F_(d, f"Muss [{i}][901]", t) for i, (d, t) in enumerate(texts.items(), start=1)])
+                GT.G.reset(auto=True, tag_text=True)
+                ahb.use_provider(ev)
+
+                async def go():
+                    text_var.set("stale7text-of-the-caller")
+                    if entry == "segment":
+                        return await validate_segment(copy.deepcopy(seg), RequirementValidationValue.IS_REQUIRED, True)
+                    deep = DeepAnwendungshandbuch(meta=AhbMetaInformation(pruefidentifikator="11042"), lines=[G_("g1", "Muss", [copy.deepcopy(seg)])])
+                    return await validate_deep_anwendungshandbuch(deep, soll_is_required=True)
+                res.count("fault_runs")
+                try:
+                    rows = project(asyncio.run(go()))
+                except BaseException:  # noqa: BLE001 - the failure surfaced: nothing is reported, nothing to judge
+                    res.count("fault_runs_where_the_failure_surfaced")
+                    continue
+                for row in rows:
+                    if row[0] not in texts:
+                        continue
+                    own = texts[row[0]]
+                    ok = bool(fc_rule(901, own))
+                    exp = (ok, None if ok else f"E901 for {own!r}")
+                    if (row[2], row[3]) != exp:
+                        res.violation(f"fault scenario ({exc.__name__} once while evaluating [901] for {victim}, entry {entry}): element {row[0]} with input {own!r} is reported "
+                                      f"with (format ok, message) = {(row[2], row[3])}, its own input gives {exp}",
+                                      {"scenario": "fault", "kind": "fault", "victim": victim, "exception": exc.__name__, "entry": entry})
+
+
 def run():
     res = Result(PID)
     work = Work(PID)
@@ -233,6 +281,7 @@ def run():
     rng = random.Random(seed() * 89 + 3)
     import ahb
     ahb.configure()
+    fault_check(res)
     for i, sc in enumerate(scenarios(thorough)):
         for disc, alone, full in sc.alone_checks():
             res.violation(f"scenario {sc.name}: element {disc} validated on its own gives {alone}, inside the AHB it is reported as {full}",
@@ -256,6 +305,12 @@ def replay(case):
     print("replay re-runs the scenario", case.get("scenario"))
     import ahb
     ahb.configure()
+    if case.get("scenario") == "fault":
+        res = Result(PID)
+        fault_check(res)
+        for d, _ in res.violations:
+            print(d)
+        return 1 if res.violations else 0
     for sc in scenarios(True):
         if sc.name == case.get("scenario"):
             res = Result(PID)
